@@ -729,7 +729,9 @@ def term_eq_fields(schema, ta, tb, prefix='', guard=None):
             aa, ab = acc(f.name + '__arr', ta), acc(f.name + '__arr', tb)
             if f.kind == 'message':
                 sub = reg.msgs[f.type_fq]
-                inner = z3.And(*[c for _, c in term_eq_fields(sub, aa[j], ab[j])])
+                # identical records are in particular field-wise equal: the first disjunct is logically redundant, it
+                # lets the solver close the common case without unfolding the nested comparison
+                inner = z3.Or(aa[j] == ab[j], z3.And(*[c for _, c in term_eq_fields(sub, aa[j], ab[j])]))
             else:
                 inner = aa[j] == ab[j]
             out.append((path + '#len', g(la == lb)))
@@ -1212,7 +1214,27 @@ class MsgCodec:
     def eq(self, a, b, excluded=()):
         return a == b
 
-    generic = _scalar_generic
+    def generic(self, prefix):
+        """one case per combination of the presence flags of the message-typed (non-repeated, non-oneof) fields: a loop
+        body may branch on HasField(...) of its element"""
+        layout = pm.msg_layout(self.schema)
+        if layout is None:
+            return _scalar_generic(self, prefix)
+        flags = [k for k, (zn, sort, role, f) in enumerate(layout) if role == 'has' and f.kind == 'message']
+        if not flags or len(flags) > 3:
+            return _scalar_generic(self, prefix)
+        import itertools
+        consts = [(_gconst('%s%s' % (prefix, zn[:6]), sort) if k not in flags else None) for k, (zn, sort, role, f) in enumerate(layout)]
+        mk = pm._MK[self.schema.fq]
+        accs = [pm.accessor(self.schema, zn) for zn, _, _, _ in layout]
+        out = []
+        for combo in itertools.product([False, True], repeat=len(flags)):
+            val = dict(zip(flags, combo))
+            args = [(z3.BoolVal(val[k]) if k in val else consts[k]) for k in range(len(layout))]
+            guard = (lambda t, val=val: z3.And(*[accs[k](t) == z3.BoolVal(v) for k, v in val.items()]))
+            subst = (lambda t: [(consts[k], accs[k](t)) for k in range(len(layout)) if consts[k] is not None])
+            out.append((guard, mk(*args), subst))
+        return out
 
 
 def elem_codec(lst):
